@@ -180,7 +180,8 @@ def joinWith (sep : UInt8) : List Bytes → Bytes
   | [a] => a
   | a :: r => a ++ sep :: joinWith sep r
 
-def wellKnownCore : Bytes := ".well-known/core".toUTF8.toList
+/-- ".well-known/core" -/
+def wellKnownCore : Bytes := [46, 119, 101, 108, 108, 45, 107, 110, 111, 119, 110, 47, 99, 111, 114, 101]
 
 def handlerBit (mask code : Nat) : Bool := decide (1 ≤ code) && decide (code ≤ 7) && (mask / 2 ^ (code - 1) % 2 == 1)
 def flag (flags bit : Nat) : Bool := flags / bit % 2 == 1
@@ -408,6 +409,10 @@ def precond (cfg : Cfg) (rq : Request) (os : Opts) (sel : Sel) : Option Nat :=
   else if cfg.mpr ∧ ¬ flag sel.flags F_HAS_MCAST ∧ rq.mcast then some 133
   else none
 
+/-- the request asks for a Block2 other than the first -/
+def blockNonZero (os : Opts) : Bool :=
+  match (firstOpt os 23).bind block with | some (num, _, _) => num != 0 | none => false
+
 /-- the handler registered for `sel` and the method runs once with the request view; what it sets is what is sent.
 `resp1`: the response it is handed (token echoed, Observe option if a registration was accepted). -/
 def finish (e : Esc) (cfg : Cfg) (rq : Request) (os : Opts) (path : Bytes) (sel : Sel) (observe : Bool) (resp1 : Reply) : Outcome :=
@@ -431,13 +436,13 @@ def run (e : Esc) (cfg : Cfg) (rq : Request) (os : Opts) (path : Bytes) (sel : S
   let observe : Bool := sel.observable && (m.code == 1 || m.code == 5) && hasOpt os 6
   let establish : Bool := observe && (uintOf ((firstOpt os 6).getD []) % 4294967296 == 0)
   -- RFC 7641 §3.1 + RFC 7959 §2.4 (libcoap: registration only with block 0)
-  let badBlock : Bool := establish && (match (firstOpt os 23).bind block with | some (num, _, _) => num != 0 | none => false)
+  let badBlock : Bool := establish && blockNonZero os
   if badBlock then ⟨true, deliver cfg rq (some sel.flags) observe { resp0 with src := .lib, code := 128 }, none⟩ else
   finish e cfg rq os path sel observe (if establish then { resp0 with opts := [(6, [2])] } else resp0)
 
-def handle (e : Esc) (cfg : Cfg) (tbl : Table) (rq : Request) (tol : Bool) : Outcome :=
+/-- proxy / Hop-Limit stage → resource selection → preconditions → handler -/
+def stages (e : Esc) (cfg : Cfg) (tbl : Table) (rq : Request) (tol : Bool) : Outcome :=
   let m := rq.msg
-  if rq.mcast ∧ m.type ≠ NON then Outcome.nothing else       -- D5
   match pre e tbl rq tol (clearBlock2M m.opts) with
   | .fail code fl => ⟨true, deliver cfg rq fl false (errReply m code), none⟩
   | .ignore => Outcome.nothing
@@ -448,6 +453,10 @@ def handle (e : Esc) (cfg : Cfg) (tbl : Table) (rq : Request) (tol : Bool) : Out
       match precond cfg rq os sel with
       | some code => ⟨true, deliver cfg rq (some sel.flags) false (errReply m code), none⟩
       | none => run e cfg rq os path sel
+
+def handle (e : Esc) (cfg : Cfg) (tbl : Table) (rq : Request) (tol : Bool) : Outcome :=
+  if rq.mcast ∧ rq.msg.type ≠ NON then Outcome.nothing       -- D5
+  else stages e cfg tbl rq tol
 
 /-- S: the outcome prescribed for one request datagram -/
 def serverSpec (e : Esc) (cfg : Cfg) (tbl : Table) (rq : Request) : Outcome :=
